@@ -20,6 +20,7 @@ pub mod cmd_writer;
 pub mod gen;
 pub mod io;
 pub mod rng;
+pub mod raw;
 pub mod shapes;
 pub mod trace;
 pub mod values;
